@@ -284,6 +284,20 @@ def run_eval(im, es, observe=None):
     except RecursionError:
         return 'X RecursionError', '', None
     tree = sqimpl.tree(ns, t) if t is not None else '(none)'
+    # ast_names: (astfns (hexname (params hex...) hexbodysrc)...) -> LambdaOp(args, expr=parse(body))
+    ast_names, ast_extra = None, ''
+    spec = field(es, 'astfns')
+    if spec:
+        ast_names, parts = {}, []
+        for nm, params, body in spec:
+            try:
+                bt = im.p.parse(unhx(body))
+            except ns.exc.ParserError:
+                return 'parse-error', '', None
+            lam = ns.ast_ops.LambdaOp(args=[ns.ast_ops.NameOp(unhx(q)) for q in params[1:]], expr=bt)
+            ast_names[unhx(nm)] = lam
+            parts.append(f'({nm} {sqimpl.tree(ns, lam)})')
+        ast_extra = ' (astnames ' + ' '.join(parts) + ')'
     fake = FakeRandom(rng)
     real_random, real_regex = ns.functions.random, ns.functions.regex
     rx = RxRecorder(real_regex if not isinstance(real_regex, RxRecorder) else real_regex._real)
@@ -300,6 +314,8 @@ def run_eval(im, es, observe=None):
     try:
         kw = {} if budget is None or budget == 'default' else {'max_ops_evaluated': int(budget)}
         try:
+            if ast_names is not None:
+                kw['ast_names'] = ast_names
             res = im.p.eval(src, names, **kw)
             out = None
         except RecursionError:
@@ -318,7 +334,7 @@ def run_eval(im, es, observe=None):
     lg = ''.join(' (p ' + w.val(a) + ')' if k == 'p' else f' (c {a})' for k, a in host.log)
     ops = states[0].ops_evaluated if states else 0
     line = f'{out} ;; names {nm} ;; ops {ops} ;; log{lg}'
-    return line, f'(tree {tree}) {rx_extra(rx.answers)}', info
+    return line, f'(tree {tree}) {rx_extra(rx.answers)}{ast_extra}', info
 
 
 def answer(im, cmd, rest):
